@@ -29,8 +29,10 @@ def lru_stems_from_parsed_url(parsed_url, suffix_aware=True):
     password = None
 
     # Handling auth
+    # NOTE: the last "@" ends the userinfo, as for the standard parser (a
+    # password can hold a raw one: "u:p@ss@host")
     if "@" in netloc:
-        auth, netloc = netloc.split("@", 1)
+        auth, netloc = netloc.rsplit("@", 1)
 
         if ":" in auth:
             user, password = auth.split(":", 1)
